@@ -228,11 +228,11 @@ PROPS["C13"] = {
     "assumptions": COMMON_ASSUME + ["the watchdog (15 s for calls that normally take micro- to milliseconds) is the only wall-clock oracle"],
     "exhaustive_checks": ["C13strayake", "C13faults", "C13oddkeys"],
     "tests": [
-        {"name": "TestProp_C13_StrayAKE", "kind": "plain", "quick": {"shards": 8, "timeout": 600}, "thorough": {"shards": 8, "timeout": 3000}},
+        {"name": "TestProp_C13_StrayAKE", "kind": "plain", "crumb_is_violation": True, "ulimit_v": 8388608, "quick": {"shards": 8, "timeout": 600}, "thorough": {"shards": 8, "timeout": 3000}},
         {"name": "TestProp_C13_Parsers", "crumb_is_violation": True, "ulimit_v": 8388608, "quick": {"shards": 4, "checks": 1500, "timeout": 500}, "thorough": {"shards": 8, "checks": 40000, "timeout": 3000}},
         {"name": "TestProp_C13_Receive", "crumb_is_violation": True, "ulimit_v": 8388608, "quick": {"shards": 6, "checks": 150, "timeout": 500}, "thorough": {"shards": 16, "checks": 3000, "timeout": 3000}},
         {"name": "TestProp_C13_Auth", "crumb_is_violation": True, "ulimit_v": 8388608, "quick": {"shards": 3, "checks": 100, "timeout": 500}, "thorough": {"shards": 8, "checks": 2500, "timeout": 3000}},
-        {"name": "TestProp_C13_Faults", "kind": "plain", "crumb_is_violation": True, "quick": {"shards": 4, "timeout": 500}, "thorough": {"shards": 8, "timeout": 3000}},
+        {"name": "TestProp_C13_Faults", "kind": "plain", "crumb_is_violation": True, "quick": {"shards": 8, "timeout": 900}, "thorough": {"shards": 8, "timeout": 3000}},
         {"name": "TestProp_C13_OddKeys", "kind": "plain", "crumb_is_violation": True, "quick": {"shards": 2, "timeout": 500}, "thorough": {"shards": 4, "timeout": 3000}},
         # native coverage-guided fuzzing, thorough tier only (cannot be seeded; a crasher file is the reproduction)
         {"name": "FuzzParsers", "kind": "fuzz", "quick": {"skip": True}, "thorough": {"shards": 1, "fuzztime": 90, "timeout": 400}},
